@@ -49,10 +49,10 @@ def run(ctx):
     rng = random.Random(ctx.seed)
     seg = 16
     if ctx.quick:
-        dense = 12
-        sizes = list(range(0, 13)) + [56, 70]
+        dense = 10
+        sizes = list(range(0, 11)) + [56, 70]
         all_kinds_sizes = set(sizes)
-        mutable_sample = 1200
+        mutable_sample = 1000
         jobs = 4
     else:
         dense = 20
@@ -65,7 +65,7 @@ def run(ctx):
         ctx.notes.append("random larger sizes (seed %d): %s" % (ctx.seed, larger))
     cfg = ("SPECIFICATION Spec\nCONSTANTS\n  Sizes = %s\n  DenseMax = %d\n  SegSize = %d\n" % (tla_set(sizes), dense, seg)
            + "".join("INVARIANT %s\n" % i for i in INVS))
-    ctx.constants.update({"Sizes": "0..12, 56, 70" if ctx.quick else "0..300 + %s" % larger, "DenseMax": dense,
+    ctx.constants.update({"Sizes": "0..10, 56, 70" if ctx.quick else "0..300 + %s" % larger, "DenseMax": dense,
                           "SegSize": seg, "values": "sizes <= DenseMax: every first/last/suffix value in -1..DenseMax+2; "
                           "larger sizes: {-1,0,1,SegSize-1..SegSize+1,size/2,size-2..size+2,size+40,2*size}"})
     cases, r = ctx.gen("frontends/WebRange", cfg, timeout=1500)
@@ -91,9 +91,8 @@ def run(ctx):
                 add(ci, "sdmf", vias[(ci + 1 + ctx.seed) % len(vias)])
                 add(ci, "mdmf", vias[(ci + 2 + ctx.seed) % len(vias)])
         else:
-            # thorough, the remaining sizes 71..300: immutable (CHK) plus one mutable format
-            add(ci, "imm", "uri")
-            add(ci, "sdmf" if c["size"] % 2 else "mdmf", "uri")
+            # thorough, the remaining sizes 71..300: one file kind per size, rotating
+            add(ci, ("imm", "sdmf", "mdmf")[c["size"] % 3], "uri")
     if mutable_sample is not None:
         # quick: the mutable formats get a class-stratified seeded sample of the same table
         byclass = {}
@@ -144,7 +143,7 @@ def run(ctx):
     ctx.rule = ("every row of the Spec's table (size x GET/HEAD x header) is replayed against a LIT/CHK file of that size; "
                 "SDMF and MDMF files get %s; the access path alternates /uri/$CAP, /file/$CAP/@@named=/f.bin, /uri/$DIRCAP/name. "
                 "non-trivial = a Range header is present; distinct key = (cap kind, method, Spec class, size)"
-                % ("a class-stratified seeded sample" if ctx.quick else "every row (sizes <= 70 and the special/random sizes) or every row on one of the two formats (other sizes)"))
+                % ("a class-stratified seeded sample" if ctx.quick else "every row (sizes <= 70 and the special/random sizes); for the other sizes each row is replayed on one kind (CHK/SDMF/MDMF rotating with the size)"))
     ctx.notes.append("open boundaries excluded from the verdict (any documented alternative accepted); observed: %s"
                      % ", ".join("%s x%d" % kv for kv in sorted(opens.items())))
     ctx.notes.append("cap kinds exercised: %s; %d requests" % (kinds, len(requests)))
